@@ -40,16 +40,24 @@ type Params struct {
 	Checksum   uint   `json:"checksum"`
 	Hint       int64  `json:"hint"` // -1 = absent
 	Headerless bool   `json:"headerless,omitempty"`
+	Skip       bool   `json:"skip_blocks,omitempty"` // ctx "skipBlocks": store incompressible / already compressed blocks raw
 }
 
 func (p Params) String() string {
-	return fmt.Sprintf("%s/%s/b%d/j%d/c%d/h%d/%v", p.Transform, p.Entropy, p.Block, p.Jobs, p.Checksum, p.Hint, p.Headerless)
+	s := fmt.Sprintf("%s/%s/b%d/j%d/c%d/h%d/%v", p.Transform, p.Entropy, p.Block, p.Jobs, p.Checksum, p.Hint, p.Headerless)
+	if p.Skip {
+		s += "/skip"
+	}
+	return s
 }
 
 func (p Params) ctx() map[string]any {
 	ctx := map[string]any{"transform": p.Transform, "entropy": p.Entropy, "blockSize": p.Block, "jobs": p.Jobs, "checksum": p.Checksum, "headerless": p.Headerless}
 	if p.Hint >= 0 {
 		ctx["fileSize"] = p.Hint
+	}
+	if p.Skip {
+		ctx["skipBlocks"] = true
 	}
 	return ctx
 }
